@@ -53,6 +53,13 @@ func getAdmin(cfg AdminCfg) *Admin {
 	if a, ok := admins[cfg.key()]; ok {
 		return a
 	}
+	a := newAdmin(cfg)
+	admins[cfg.key()] = a
+	return a
+}
+
+// newAdmin: a fresh in-process nsqadmin (the caller registers it in admins under its own key)
+func newAdmin(cfg AdminCfg) *Admin {
 	opts := nsqadmin.NewOptions()
 	opts.Logger = log.New(io.Discard, "", 0)
 	opts.LogLevel = 4
@@ -71,9 +78,18 @@ func getAdmin(cfg AdminCfg) *Admin {
 		lib.Fatalf("nsqadmin.New(%+v): %v", cfg, err)
 	}
 	go n.Main()
-	a := &Admin{cfg: cfg, n: n, srv: nsqadmin.NewHTTPServer(n), addr: n.RealHTTPAddr().String()}
-	admins[cfg.key()] = a
-	return a
+	return &Admin{cfg: cfg, n: n, srv: nsqadmin.NewHTTPServer(n), addr: n.RealHTTPAddr().String()}
+}
+
+// retireAdmin: the instance is taken out of the cache (it is still closed at the end)
+func retireAdmin(a *Admin) {
+	for k, b := range admins {
+		if a == b {
+			delete(admins, k)
+			admins[fmt.Sprintf("retired-%d|%s", len(admins), k)] = a
+			return
+		}
+	}
 }
 
 func closeAdmins() {
